@@ -32,6 +32,7 @@ import getpass
 import logging
 import os
 import re
+from shlex import quote
 
 from maestrowf.abstracts.interfaces import SchedulerScriptAdapter
 from maestrowf.abstracts.enums import JobStatusCode, State, SubmissionCode, \
@@ -226,8 +227,10 @@ class SlurmScriptAdapter(SchedulerScriptAdapter):
             if self._batch["reservation"]:
                 cmd += ["--reservation", self._batch["reservation"]]
 
-        # Append the script path and working directory.
-        cmd += ["-D", cwd, path]
+        # Append the script path and working directory. The command line is
+        # run by a shell and workspace paths may contain blanks, parentheses
+        # or other shell-special characters.
+        cmd += ["-D", quote(cwd), quote(path)]
         cmd = " ".join(cmd)
 
         LOGGER.debug("cwd = %s", cwd)
